@@ -391,6 +391,9 @@ def run_check(prop, tier, seed, only_shard=None):
     for fid, (f, n) in sorted(known.items()):
         print(f"KNOWN-FINDING: property={prop} {f['what']} [{fid}; observed {n}x]")
     rc = EXIT_HELD
+    import glob
+    for stale in glob.glob(os.path.join(OUT, "replay", f"{prop}-{tier}-{seed}-*.json")):
+        os.unlink(stale)  # a replay file always belongs to the run that just finished
     if unknown:
         os.makedirs(os.path.join(OUT, "replay"), exist_ok=True)
         done = set()
